@@ -39,8 +39,9 @@ COMPONENTS = {
 ASSUMPTIONS = ['single thread, no schedule: the fault plan is the whole search space',
                'a failing example fails deterministically on every evaluation']
 
-KINDS = ['filter', 'filter_sub', 'value', 'key']
-CATCHES = ['filter', 'filter', 'value', ['filter', 'key'], ['value', 'key'], 'filter_sub']
+KINDS = ['filter', 'filter_sub', 'value', 'key', 'index']
+CATCHES = ['filter', 'filter', 'value', ['filter', 'key'], ['value', 'key'], 'filter_sub',
+           ['filter', 'index'], 'index']
 
 
 def gen_desc(rng):
